@@ -27,6 +27,11 @@ TOPLEVEL_DECLARED = {"UNDEFINED", "STOP_RENDERING"}
 RESERVED_NAMES = {"context", "loop"}.union(TOPLEVEL_DECLARED)
 
 
+def compile_time():
+    """the time a module records as its ``_modified_time``"""
+    return time.time()
+
+
 def compile(  # noqa
     node,
     uri,
@@ -40,6 +45,7 @@ def compile(  # noqa
     strict_undefined=False,
     enable_loop=True,
     reserved_names=frozenset(),
+    modified_time=None,
 ):
     """Generate module source code given a parsetree node,
     uri, and optional source filename"""
@@ -61,6 +67,7 @@ def compile(  # noqa
             strict_undefined,
             enable_loop,
             reserved_names,
+            modified_time,
         ),
         node,
     )
@@ -81,6 +88,7 @@ class _CompileContext:
         strict_undefined,
         enable_loop,
         reserved_names,
+        modified_time=None,
     ):
         self.uri = uri
         self.filename = filename
@@ -93,6 +101,7 @@ class _CompileContext:
         self.strict_undefined = strict_undefined
         self.enable_loop = enable_loop
         self.reserved_names = reserved_names
+        self.modified_time = modified_time
 
 
 class _GenerateRenderMethod:
@@ -229,7 +238,10 @@ class _GenerateRenderMethod:
         self.printer.writeline("__M_dict_builtin = dict")
         self.printer.writeline("__M_locals_builtin = locals")
         self.printer.writeline("_magic_number = %r" % MAGIC_NUMBER)
-        self.printer.writeline("_modified_time = %r" % time.time())
+        self.printer.writeline(
+            "_modified_time = %r"
+            % (self.compiler.modified_time or compile_time())
+        )
         self.printer.writeline("_enable_loop = %r" % self.compiler.enable_loop)
         self.printer.writeline(
             "_template_filename = %r" % self.compiler.filename
